@@ -186,6 +186,70 @@ theorem toBoc_steps_le (g : Dag) (hg : g.WF) (root : Nat) (hr : root < g.length)
   simp only [toBocSteps, toBoc]
   cases hasIdx <;> cases hasCrc <;> simp <;> omega
 
+/-! ## construction / hashing -/
+
+theorem sumTo_le (f h : Nat → Nat) : ∀ n, (∀ v, v < n → f v ≤ h v) → sumTo f n ≤ sumTo h n := by
+  intro n
+  induction n with
+  | zero => intro _; exact Nat.le_refl _
+  | succ k ih =>
+    intro hk
+    have h1 := ih (fun v hv => hk v (by omega))
+    have h2 := hk k (by omega)
+    simp only [sumTo]; omega
+
+theorem sumTo_add (f h : Nat → Nat) (n : Nat) : sumTo (fun v => f v + h v) n = sumTo f n + sumTo h n := by
+  induction n with
+  | zero => rfl
+  | succ k ih => simp only [sumTo, ih]; omega
+
+theorem sumTo_mul (c : Nat) (f : Nat → Nat) (n : Nat) : sumTo (fun v => c * f v) n = c * sumTo f n := by
+  induction n with
+  | zero => rfl
+  | succ k ih => simp only [sumTo, ih, Nat.mul_add]
+
+theorem sumTo_const (c n : Nat) : sumTo (fun _ => c) n = c * n := by
+  induction n with
+  | zero => rfl
+  | succ k ih => simp only [sumTo, ih, Nat.mul_succ]
+
+theorem hashWork_eq (g : Dag) : hashWork g = 4 * (g.length + edges g) := by
+  have h := sumTo_mul 4 (fun v => 1 + deg g v) g.length
+  have h2 := sumTo_add (fun _ => 1) (deg g) g.length
+  have h3 := sumTo_const 1 g.length
+  simp only [hashWork, edges] at *
+  omega
+
+theorem ctorSteps_le (lv d : Nat) (h : lv ≤ 4) : ctorSteps lv d ≤ 4 + 9 * d := by
+  have h1 : lv * (1 + 2 * d) ≤ 4 * (1 + 2 * d) := Nat.mul_le_mul_right _ h
+  simp only [ctorSteps]; omega
+
+theorem ctorBytes_le (lv d size : Nat) (h : lv ≤ 4) : ctorBytes lv d size ≤ 4 * size + 136 + 136 * d := by
+  have h1 : lv * (max size 34 + 34 * d) ≤ 4 * (max size 34 + 34 * d) := Nat.mul_le_mul_right _ h
+  simp only [ctorBytes]; omega
+
+theorem buildSteps_le (lv : Nat → Nat) (g : Dag) (h : ∀ v, lv v ≤ 4) : buildSteps lv g ≤ 4 * g.length + 9 * edges g := by
+  have h1 := sumTo_le (fun v => ctorSteps (lv v) (deg g v)) (fun v => 4 + 9 * deg g v) g.length
+    (fun v _ => ctorSteps_le _ _ (h v))
+  have h2 := sumTo_add (fun _ => 4) (fun v => 9 * deg g v) g.length
+  have h3 := sumTo_mul 9 (deg g) g.length
+  have h4 := sumTo_const 4 g.length
+  simp only [buildSteps, edges] at *
+  omega
+
+theorem buildBytes_le (lv : Nat → Nat) (g : Dag) (h : ∀ v, lv v ≤ 4) :
+    buildBytes lv g ≤ 4 * cellBytes g + 136 * (g.length + edges g) := by
+  have h1 := sumTo_le (fun v => ctorBytes (lv v) (deg g v) ((g[v]?.map (·.size)).getD 0))
+    (fun v => 4 * ((g[v]?.map (·.size)).getD 0) + (136 + 136 * deg g v)) g.length
+    (fun v _ => by have := ctorBytes_le (lv v) (deg g v) ((g[v]?.map (·.size)).getD 0) (h v); omega)
+  have h2 := sumTo_add (fun v => 4 * ((g[v]?.map (·.size)).getD 0)) (fun v => 136 + 136 * deg g v) g.length
+  have h3 := sumTo_mul 4 (fun v => (g[v]?.map (·.size)).getD 0) g.length
+  have h4 := sumTo_add (fun _ => 136) (fun v => 136 * deg g v) g.length
+  have h5 := sumTo_mul 136 (deg g) g.length
+  have h6 := sumTo_const 136 g.length
+  simp only [buildBytes, cellBytes, edges] at *
+  omega
+
 /-! ## BoC parser -/
 
 theorem cellLoop_bound (sb : Nat) (hsb : 1 ≤ sb) : ∀ (cnt : Nat) (data : Bytes),
@@ -352,6 +416,51 @@ theorem dictCalls_le (g : DDag) : ∀ (f v : Nat) (k : Int), (dictCalls g f v k)
                   | raised s => rw [hb] at ihb; simp only [DRes.steps] at ihb ⊢; omega
                   | done s2 => rw [hb] at ihb; simp only [DRes.steps] at ihb ⊢; omega
 
+/-- a completed parse made exactly `4·(entries + stops) − 2` calls: the call tree is a full binary tree whose leaves are
+the result entries and the pruned edges -/
+theorem dictCalls_out (g : DDag) : ∀ (f v : Nat) (k : Int) (s : Nat), dictCalls g f v k = .done s →
+    s + 2 = 4 * ((dictOut g f v k).1 + (dictOut g f v k).2) := by
+  intro f
+  induction f with
+  | zero => intro v k s h; simp [dictCalls] at h
+  | succ n ih =>
+    intro v k s
+    unfold dictCalls dictOut
+    cases hv : g[v]? with
+    | none => simp
+    | some nd =>
+      simp only []
+      rcases hl : readLabel nd.bits k with ⟨l, it⟩
+      cases l with
+      | none => simp
+      | some l =>
+        simp only []
+        split
+        · intro h; cases h; rfl
+        · split
+          · intro h; cases h; rfl
+          · cases hk : nd.kids with
+            | nil => simp
+            | cons a rest =>
+              simp only []
+              cases ha : dictCalls g n a (k - (l : Int) - 1) with
+              | oof => simp
+              | raised s1 => simp
+              | done s1 =>
+                have iha := ih a _ s1 ha
+                cases rest with
+                | nil => simp
+                | cons b rest2 =>
+                  simp only []
+                  cases hb : dictCalls g n b (k - (l : Int) - 1) with
+                  | oof => simp
+                  | raised s2 => simp
+                  | done s2 =>
+                    have ihb := ih b _ s2 hb
+                    intro h
+                    cases h
+                    omega
+
 theorem unary_len : ∀ (r : Bits) (n : Nat) (rest : Bits), unary r = some (n, rest) → n + rest.length + 1 = r.length := by
   intro r
   induction r with
@@ -386,6 +495,76 @@ theorem readLabel_iters (bits : Bits) (m : Int) : (readLabel bits m).2 ≤ bits.
   | true :: false :: r => simp only []; split <;> simp
   | [true, true] => simp
   | true :: true :: _ :: r => simp only []; split <;> simp
+
+/-- `dictParse` (calls + unary-loop iterations) against `dictCalls` (calls only): same outcome, at most `1 + B` times the steps
+when no cell has more than `B` bits -/
+def DRel (B : Nat) (p c : DRes) : Prop :=
+  match p, c with
+  | .done a, .done b => a ≤ b * (1 + B)
+  | .raised a, .raised b => a ≤ b * (1 + B)
+  | .oof, .oof => True
+  | _, _ => False
+
+theorem dictParse_rel (g : DDag) (B : Nat) (hB : ∀ nd ∈ g, nd.bits.length ≤ B) :
+    ∀ (f v : Nat) (k : Int), DRel B (dictParse g f v k) (dictCalls g f v k) := by
+  intro f
+  induction f with
+  | zero => intro v k; simp [dictParse, dictCalls, DRel]
+  | succ n ih =>
+    intro v k
+    unfold dictParse dictCalls
+    cases hv : g[v]? with
+    | none => simp [DRel]
+    | some nd =>
+      have hbits : nd.bits.length ≤ B := hB nd (List.mem_of_getElem? hv)
+      simp only []
+      have hit := readLabel_iters nd.bits k
+      rcases hl : readLabel nd.bits k with ⟨l, it⟩
+      rw [hl] at hit
+      simp only [] at hit
+      have e2 : 2 * (1 + B) = 2 + 2 * B := by omega
+      cases l with
+      | none => simp only [DRel]; omega
+      | some l =>
+        simp only []
+        split
+        · simp only [DRel]; omega
+        · split
+          · simp only [DRel]; omega
+          · cases hk : nd.kids with
+            | nil => simp only [DRel]; omega
+            | cons a rest =>
+              simp only []
+              have iha := ih a (k - (l : Int) - 1)
+              cases ha : dictCalls g n a (k - (l : Int) - 1) with
+              | oof =>
+                rw [ha] at iha
+                cases hpa : dictParse g n a (k - (l : Int) - 1) <;> rw [hpa] at iha <;> simp only [DRel] at iha ⊢
+              | raised c1 =>
+                rw [ha] at iha
+                cases hpa : dictParse g n a (k - (l : Int) - 1) <;> rw [hpa] at iha <;> simp only [DRel] at iha ⊢
+                rw [Nat.add_mul]; omega
+              | done c1 =>
+                rw [ha] at iha
+                cases hpa : dictParse g n a (k - (l : Int) - 1) <;> rw [hpa] at iha <;> simp only [DRel] at iha ⊢
+                rename_i p1
+                cases rest with
+                | nil => simp only [DRel]; rw [Nat.add_mul]; omega
+                | cons b rest2 =>
+                  simp only []
+                  have ihb := ih b (k - (l : Int) - 1)
+                  cases hb : dictCalls g n b (k - (l : Int) - 1) with
+                  | oof =>
+                    rw [hb] at ihb
+                    cases hpb : dictParse g n b (k - (l : Int) - 1) <;> rw [hpb] at ihb <;> simp only [DRel] at ihb ⊢
+                  | raised c2 =>
+                    rw [hb] at ihb
+                    cases hpb : dictParse g n b (k - (l : Int) - 1) <;> rw [hpb] at ihb <;> simp only [DRel] at ihb ⊢
+                    rw [Nat.add_mul, Nat.add_mul]; omega
+                  | done c2 =>
+                    rw [hb] at ihb
+                    cases hpb : dictParse g n b (k - (l : Int) - 1) <;> rw [hpb] at ihb <;> simp only [DRel] at ihb ⊢
+                    rw [Nat.add_mul, Nat.add_mul]; omega
 
 /-! ## TL parser: the loops never exhaust their own fuel -/
 open TonVerif.Model.Cost.Tl
